@@ -29,26 +29,27 @@ const (
 const maxSchedule = 1 << 16
 
 type schedState struct {
-	n        int // number of tasks (task n is main)
-	rfd, wfd [MaxTasks + 1]int
-	state    [MaxTasks + 1]uint8
-	cur      int
-	rng      uint64
-	stay     uint64 // probability (out of 256) to keep the current task at a yield
-	sched    [maxSchedule]int16
-	schedLen int
-	replay   []int16
-	replayAt int
-	steps    int
-	switches int
-	inLock   int // preemptions inside a LockSafe critical section
-	deadlock bool
-	active   bool
-	gcEvery  int
-	gcHook   func()
-	tryFails int
-	stall    [MaxTasks + 1]int // remaining yields for which a task is not chosen
-	stalls   int
+	n            int // number of tasks (task n is main)
+	rfd, wfd     [MaxTasks + 1]int
+	state        [MaxTasks + 1]uint8
+	cur          int
+	rng          uint64
+	stay         uint64 // probability (out of 256) to keep the current task at a yield
+	sched        [maxSchedule]int16
+	schedLen     int
+	replay       []int16
+	replayAt     int
+	steps        int
+	switches     int
+	inLock       int // preemptions inside a LockSafe critical section
+	sharedSwitch int // preemptions between a load and a store of the shared filter hint
+	deadlock     bool
+	active       bool
+	gcEvery      int
+	gcHook       func()
+	tryFails     int
+	stall        [MaxTasks + 1]int // remaining yields for which a task is not chosen
+	stalls       int
 }
 
 var st schedState
@@ -218,6 +219,12 @@ func hook(kind uint8, mu *sync.Mutex) {
 		if st.switches != before {
 			st.inLock++
 		}
+	case 3: // between a load and a store of state shared without a lock (filter hint)
+		before := st.switches
+		yield()
+		if st.switches != before {
+			st.sharedSwitch++
+		}
 	default: // after mu.Unlock(): waiters may try again
 		for i := 0; i < st.n; i++ {
 			if st.state[i] == stWaiting {
@@ -286,6 +293,7 @@ func setup(n int, seed uint64, stay int, replay []int16) {
 	st.replay = replay
 	st.replayAt = 0
 	st.steps, st.switches, st.inLock, st.tryFails, st.stalls = 0, 0, 0, 0, 0
+	st.sharedSwitch = 0
 	st.deadlock = false
 	st.cur = n
 }
@@ -312,3 +320,6 @@ func snapshot() (schedule []int16, steps, switches, inLock, tryFails, stalls int
 	copy(schedule, st.sched[:st.schedLen])
 	return schedule, st.steps, st.switches, st.inLock, st.tryFails, st.stalls, st.deadlock
 }
+
+//go:norace
+func sharedSwitches() int { return st.sharedSwitch }
